@@ -91,8 +91,24 @@ pub fn check(case: &C16Case, st: &mut Stats) -> Verdict {
     // (3a) structure: hidden set, reconstruction == claims (the spacing rewrite changed no name and no value)
     check_issued(spec, &tree, &t1).map_err(|f| Failure::new(format!("mock:{}", f.signature), format!("[deterministic-salt build] {}", f.message)))?;
     // (2) byte identity across runs
+    // second run: on an issuer instance that first had a call refused (claims that are not an
+    // object). The refusal happens before anything is built, so it consumes no salt and leaves
+    // nothing behind; the queue is refilled afterwards anyway.
+    let mut issuer2 = sut::new_issuer(spec.alg, crate::keys::KeyId::Primary);
+    {
+        fill(&case.salts);
+        let refused = IssueSpec { claims: serde_json::json!([{"a": 1}, "x", [1, 2]]), strat: crate::tree::Strat::AllLevels, ..spec.clone() };
+        match sut::issue_with(&mut issuer2, &refused) {
+            Out::Err(_) => {}
+            Out::Ok(s) => return Err(Failure::new("mock:non-object-issued", format!("claims that are a JSON array were issued: {}", sut::clip(&s, 300)))),
+            Out::Panic(p) => return Err(Failure::new(panic_sig("mock:issue(refused call)", &p), format!("issue_sd_jwt panicked on array claims: {}", p))),
+        }
+        if remaining() != case.salts {
+            return Err(Failure::new("mock:queue", format!("a refused issuance (claims not an object) consumed salts: queue before {:?}, after {:?}", case.salts, remaining())));
+        }
+    }
     fill(&case.salts);
-    let t2 = must_ok("mock:issue(second run)", sut::issue(spec))?;
+    let t2 = must_ok("mock:issue(second run)", sut::issue_with(&mut issuer2, spec))?;
     let p2 = split(&t2, spec.fmt).map_err(|e| Failure::new("mock:unparseable", e))?;
     // decoy digests stay random in this mode and also occur inside disclosed objects: the
     // byte-identity clause is stated for decoys off only
